@@ -1047,6 +1047,7 @@ class Context:
             JSUint8ClampedArray,
             JSArrayBuffer,
             JSArray,
+            JSTypedArray,
         )
 
         type_classes = {
@@ -1072,13 +1073,35 @@ class Context:
                 return array_class(self._array_length(arg))
             elif isinstance(arg, JSArrayBuffer):
                 # new Int32Array(buffer, byteOffset?, length?)
-                buffer = arg
-                byte_offset = int(args[1]) if len(args) > 1 else 0
-                element_size = array_class._element_size
+                from .errors import JSRangeError
 
-                if len(args) > 2:
-                    length = int(args[2])
+                def to_index(value):
+                    """ToIndex: an integer in [0, 2**53), else RangeError."""
+                    if value is UNDEFINED:
+                        return 0
+                    n = to_integer(value)
+                    if not 0 <= n < 2**53:
+                        raise JSRangeError("Invalid typed array offset or length")
+                    return n
+
+                buffer = arg
+                byte_offset = to_index(args[1]) if len(args) > 1 else 0
+                element_size = array_class._element_size
+                if byte_offset % element_size != 0:
+                    raise JSRangeError(
+                        f"Start offset of {name} should be a multiple of {element_size}"
+                    )
+
+                if len(args) > 2 and args[2] is not UNDEFINED:
+                    length = to_index(args[2])
+                    if byte_offset + length * element_size > buffer.byteLength:
+                        raise JSRangeError(f"Invalid typed array length: {length}")
                 else:
+                    if (
+                        byte_offset > buffer.byteLength
+                        or (buffer.byteLength - byte_offset) % element_size != 0
+                    ):
+                        raise JSRangeError("Invalid typed array offset")
                     length = (buffer.byteLength - byte_offset) // element_size
 
                 result = array_class(length)
@@ -1104,13 +1127,18 @@ class Context:
                     result._data[i] = result._coerce_value(val)
 
                 return result
-            elif isinstance(arg, JSArray):
-                # new Int32Array([1, 2, 3])
+            elif isinstance(arg, (JSArray, JSTypedArray)):
+                # new Int32Array([1, 2, 3]) / new Int32Array(typedArray)
                 length = arg.length
                 result = array_class(length)
                 for i in range(length):
                     result.set_index(i, arg.get_index(i))
                 return result
+            elif not isinstance(arg, JSObject):
+                # Any other primitive is a length (undefined and null: 0)
+                if arg is UNDEFINED or arg is NULL:
+                    return array_class(0)
+                return array_class(self._array_length(to_number(arg)))
             return array_class(0)
 
         constructor = JSCallableObject(constructor_fn)
